@@ -3,6 +3,7 @@ import Thanos.Model.BlockSet
 import Thanos.Model.Labels
 import Thanos.Model.Frames
 import Thanos.Model.StoreSpec
+import Thanos.Model.Limiter
 /-
   Line-protocol driver of the `stores` family (C07 C08 C09 C10 C15).
   One request per line, one answer per line; every line is self-contained.
@@ -19,6 +20,11 @@ import Thanos.Model.StoreSpec
     st.series <kind> <blocks> <mint> <maxt> <matchers> <without> <skip>
     st.names  <kind> <blocks> <start> <end> <matchers> <without>
     st.values <kind> <blocks> <start> <end> <matchers> <without> <label>
+
+  C09
+    lim.seq <limit> <n,n,…>        -> `<1|0,…> failed=<0|1>`
+    st.limits bkt+<cfg> <blocks> <mint> <maxt> <matchers> <without> <skip>   (cfg carries sl<n> and cl<n>)
+                                   -> `ok s=<series> c=<chunks>` | `exhausted`
 -/
 open Thanos Thanos.Parse
 
@@ -150,6 +156,22 @@ def handleValues (kind blocks mint maxt matchers without label : String) : Strin
     | _, _ => "bad-op"
   | _, _, _ => "bad-op"
 
+/-- the value of `key<digits>` in a `+`-separated configuration, 0 when absent -/
+def cfgNat (key : String) (kind : String) : Nat :=
+  ((splitChar '+' kind).filterMap fun t =>
+    if t.startsWith key ∧ (t.drop key.length).all Char.isDigit ∧ t.length > key.length then (t.drop key.length).toNat? else none).headD 0
+
+def handleLimits (kind blocks mint maxt matchers without skip : String) : String :=
+  match parseSpecBlocks blocks, parseReq mint maxt matchers without (skip == "1") with
+  | some bs, some r =>
+    if kindOf kind != "bkt" then "bad-op" else
+    match StoreSpec.bucketSeriesLimited (cfgNat "sl" kind) (cfgNat "cl" kind) bs r with
+    | .exhausted => "exhausted"
+    | .ok es =>
+      let c := if r.skipChunks then 0 else StoreSpec.countChunks es
+      s!"ok s={StoreSpec.countSeries es} c={c}"
+  | _, _ => "bad-op"
+
 def zipIdx (xs : List Int) : List Frames.Chunk :=
   let rec go : Nat → List Int → List Frames.Chunk
     | _, [] => []
@@ -175,6 +197,15 @@ def handle : List String → String
     | some m, some lsz, some csz =>
       joinWith "|" ((Frames.splitFrames m lsz (zipIdx csz)).map fun f => "+".intercalate (f.map fun c => toString c.1))
     | _, _, _ => "bad-op"
+  | ["lim.seq", limit, ns] =>
+    match parseNat? limit, parseNats? ',' ns with
+    | some limit, some ns =>
+      let out := Limiter.run (Limiter.new limit) ns
+      let failed := if out.all id then 0 else 1
+      s!"{joinWith "," (out.map fun b => if b then "1" else "0")} failed={failed}"
+    | _, _ => "bad-op"
+  | ["st.limits", kind, blocks, mint, maxt, matchers, without, skip] =>
+    handleLimits kind blocks mint maxt matchers without skip
   | ["st.series", kind, blocks, mint, maxt, matchers, without, skip] =>
     handleSeries kind blocks mint maxt matchers without skip
   | ["st.names", kind, blocks, mint, maxt, matchers, without] =>
